@@ -34,6 +34,8 @@ const ENV_NAMES: &[&str] = &[
     "extra-properties-added-and-removed",
     "into_raw+from_raw",
     "unrelated-instances-inserted-and-destroyed-around-it",
+    "after-a-failed-save-of-another-selection-on-this-thread",
+    "after-a-successful-save-of-another-dom-on-this-thread",
 ];
 
 pub struct DetSim {
@@ -228,6 +230,63 @@ fn save(format: Format, dom: &WeakDom, roots: &[Ref]) -> Saved {
         Ok(Ok(b)) => Saved::Ok(b),
         Ok(Err(e)) => Saved::Err(e),
         Err(p) => Saved::Panic(p.key),
+    }
+}
+
+/// A writer that fails once `limit` bytes have been accepted.
+struct FailingSink {
+    taken: usize,
+    limit: usize,
+}
+
+impl std::io::Write for FailingSink {
+    fn write(&mut self, buf: &[u8]) -> std::io::Result<usize> {
+        if self.taken >= self.limit {
+            return Err(std::io::Error::new(std::io::ErrorKind::Other, "rbxsim: disk full"));
+        }
+        let n = buf.len().min(self.limit - self.taken);
+        self.taken += n;
+        Ok(n)
+    }
+    fn flush(&mut self) -> std::io::Result<()> {
+        Ok(())
+    }
+}
+
+/// What the calling thread did with the serializer *before* the save that is
+/// compared. Output must not depend on it.
+fn serializer_history(format: Format, env: u8, dom: &WeakDom, seed: u64) {
+    match env {
+        9 => {
+            // a save of another selection (the whole DOM, DataModel included)
+            // into a sink that fails part-way
+            let limit = 40 + (seed % 400) as usize;
+            let _ = crate::panic::catch(|| {
+                let sink = FailingSink { taken: 0, limit };
+                let roots = [dom.root_ref()];
+                match format {
+                    Format::BinLz4 | Format::BinNone | Format::BinZstd => {
+                        let c = match format {
+                            Format::BinLz4 => rbx_binary::CompressionType::Lz4,
+                            Format::BinNone => rbx_binary::CompressionType::None,
+                            _ => rbx_binary::CompressionType::Zstd,
+                        };
+                        let _ = rbx_binary::Serializer::new().compression_type(c).serialize(sink, dom, &roots);
+                    }
+                    _ => {
+                        let _ = rbx_xml::to_writer_default(sink, dom, &roots);
+                    }
+                }
+            });
+        }
+        10 => {
+            let mut other = WeakDom::new(InstanceBuilder::new("DataModel"));
+            let oroot = other.root_ref();
+            let a = other.insert(oroot, InstanceBuilder::new("Part").with_name("other").with_property("Anchored", true));
+            other.insert(a, InstanceBuilder::new("ObjectValue").with_property("Value", Variant::Ref(a)));
+            let _ = save(format, &other, &[a]);
+        }
+        _ => {}
     }
 }
 
@@ -438,6 +497,7 @@ impl Engine for DetSim {
             ctx.count(&format!("fault_fired:env:{}", env_name));
             for (fi, f) in FORMATS.iter().enumerate() {
                 ctx.evals += 1;
+                serializer_history(*f, *env, &dom, t.env_seed_salt);
                 let s = save(*f, &dom, &[root]);
                 ctx.log.u64(s.digest());
                 if s.class() != base[fi].class() {
@@ -532,7 +592,7 @@ impl Engine for DetSim {
     }
 
     fn distinct_rule(&self, _property: &str) -> String {
-        "One evaluation is one call of a real serializer. Each run materialises one logical tree in the canonical environment and in 2-4 environments that differ only in nondeterminism or construction history (other Ref and per-map hash streams, permuted property insertion order, node-by-node inserts, built in another DOM then transferred or cloned in, extra properties added and removed, into_raw+from_raw) and compares outcome class and bytes for binary x {LZ4, none, Zstd} and XML (default, WriteUnknown); then checks save(load(save(T))) == save(load(save(load(save(T))))). The same run indices are executed again in other worker processes under other per-process hash keys and compared by the orchestrator. distinct_nontrivial counts distinct logical trees that contain two same-class instances with different property sets, an alias or legacy property name, a SharedString or a Ref edge.".into()
+        "One evaluation is one call of a real serializer. Each run materialises one logical tree in the canonical environment and in 2-4 environments that differ only in nondeterminism or construction history (other Ref and per-map hash streams, permuted property insertion order, node-by-node inserts, built in another DOM then transferred or cloned in, extra properties added and removed, into_raw+from_raw, unrelated instances inserted and destroyed around it, a failed save of another selection or a successful save of another DOM earlier on the same thread) and compares outcome class and bytes for binary x {LZ4, none, Zstd} and XML (default, WriteUnknown); then checks save(load(save(T))) == save(load(save(load(save(T))))). The same run indices are executed again in other worker processes under other per-process hash keys and compared by the orchestrator. distinct_nontrivial counts distinct logical trees that contain two same-class instances with different property sets, an alias or legacy property name, a SharedString or a Ref edge.".into()
     }
 
     fn assumptions(&self, _property: &str) -> Vec<String> {
